@@ -280,6 +280,17 @@ ALL_RT_STALLS = ["SWITCH_PRE", "SWITCH_POST", "MAINT_PUBLISH", "SCHEDULED", "WAI
 
 def c01(tier, seed):
     runs = fb_plan(tier, seed, "h_rt", "rt", ALL_RT_STALLS, 6, 40, extra=dict(livelock_prop="C01"), stall_every=9)
+    # the deferred-unlock path of cond wait / multi-channel wait (a switch while a switch is being completed)
+    q = tier == "quick"
+    k = 700
+    for sp in ("MPSC_MID", "WAIT_MPSC_PRE_PUSH"):
+        for thr in ((4, 8) if q else (2, 4, 8, 16)):
+            k += 1
+            runs.append(fb("h_sync", "mon", "cond", seed, k, thr, mode="stall", stall_point=sp, stall_every=5, stall_us_lo=50, stall_us_hi=1500,
+                           trials=10 if q else 60, livelock_prop="C01"))
+            k += 1
+            runs.append(fb("h_chan", "mon", "multi", seed, k, thr, mode="stall", stall_point=sp, stall_every=5, stall_us_lo=50, stall_us_hi=1500,
+                           trials=4 if q else 30, livelock_prop="C01"))
     return dict(runs=runs,
                 rule="a case = one seeded random program: 8..120 worker fibers each running 10..60 random actions from a 15-entry menu (yield, mutex, "
                 "semaphore post/wait, rwlock, cond ticket, multi-channel, bounded/unbounded channel sends to single receivers, create+join, "
@@ -306,7 +317,16 @@ def c02_full(tier, seed):
         k += 1
         d["runs"].append(fb("h_rt", "mon", "rt", seed, k, 8, mode="stall", stall_point=sp, stall_every=9, stall_us_lo=50, stall_us_hi=800,
                             trials=3 if q else 20, livelock_prop="C02", io=0))
-    d["min_events"].update({"steals": 50, "rt_programs": 4})
+    # join/finish races with steals in the clear-or-wait window: a wake-up pushed through a stale manager lands on another
+    # thread's deque (non-owner push) or is lost
+    for sp in ("SET_AND_WAIT", "MAINT_PUBLISH", "STEAL", "WSD_POP_MID"):
+        for thr in ((8,) if q else (4, 8, 16)):
+            k += 1
+            d["runs"].append(fb("h_join", "mon", "join", seed, k, thr, mode="stall", stall_point=sp, stall_every=2, stall_us_lo=50, stall_us_hi=400,
+                                trials=60 if q else 400, drivers=12, livelock_prop="C02"))
+    k += 1
+    d["runs"].append(fb("h_join", "mon", "join", seed, k, 8, mode="jitter", trials=80 if q else 600, drivers=12, livelock_prop="C02"))
+    d["min_events"].update({"steals": 50, "rt_programs": 4, "join_trials": 500})
     return d
 
 
